@@ -9,7 +9,9 @@ def signature(msg, case_lines):
     m = re.search(r"kind=([\w-]+)", msg)
     kind = m.group(1) if m else "?"
     hdr = case_lines[0] if case_lines else ""
-    d = re.search(r"dual=(\d)", hdr)
+    d = re.search(r"dual=(\d)", msg.split(" ev=[")[0]) or re.search(r"dual=(\d)", hdr)
+    if kind == "gray-roundtrip":
+        return "kind:gray-roundtrip"
     return "kind:%s;dual:%s" % (kind, d.group(1) if d else "?")
 
 
@@ -21,23 +23,23 @@ vlib.standard_check({
     "exe": "gv_c15",
     "harness": "c15",
     # [ncases, eventsPerCase]
-    "streams": {"quick": [[300, 2000], [1500, 150], [300, 500, "stream"]],
-                "thorough": [[2000, 4000], [250, 30000], [12000, 200], [3000, 1000, "stream"]]},
-    "search": [[1500, 2000], [6000, 300], [2000, 600, "stream"]],
+    "streams": {"quick": [[300, 2000], [1500, 150], [300, 500, "stream"], [6, 6000, "deep"], [16, 400, "gray"]],
+                "thorough": [[2000, 4000], [250, 30000], [12000, 200], [3000, 1000, "stream"], [150, 12000, "deep"], [64, 20000, "gray"]]},
+    "search": [[1500, 2000], [6000, 300], [2000, 600, "stream"], [30, 8000, "deep"], [16, 2000, "gray"]],
     "signature": signature,
     "eval_key": "ops",
     "nontrivial": lambda t: sum(t.get("cov", {}).get(k, 0) for k in ("accepted", "yielded", "push_attempt_at_capacity", "pop_attempt_at_none",
-                                                                     "stream_accepted", "stream_yielded", "stream_backpressure_at_capacity")),
+                                                                     "stream_accepted", "stream_yielded", "stream_backpressure_at_capacity", "gray_values")),
     "extra_cov": lambda t: {"boundary_coverage": t.get("cov", {}), "configurations": t.get("hist", {})},
     "rule": "configurations: depth 2^k (k=0..6, minDepth in (2^(k-1),2^k]), payload width in {1..64}, latency request in {DontCare, Specific 1..7, AtLeast 0..6, AtMost 1..8}, "
             "single clock or dual clock with push:pop frequency ratio from 21 rationals (1:16 .. 16:1, 100:133 ...); schedules switch between random / burst-to-full / drain-to-empty / "
             "push+pop simultaneously / polite / push-heavy / pop-heavy / idle phases long enough to sit at both boundaries and wrap the pointers; payload = running counter, "
-            "sometimes random or partly undefined; almost-full/-empty levels constant or varying per edge. A third stream drives scl::strm::fifo (ready/valid, latency 0 = fall-through .. 4) with protocol-conforming sources. evaluations = clock-edge events replayed on model AND checked against the queue spec; "
+            "sometimes random or partly undefined; almost-full/-empty levels constant or varying per edge. A `deep` stream builds only dual-clock FIFOs of depth 128/256/512 (8..10 bit pointers through the gray-code synchronisers, unrelated clock ratios such as 100:77, enough events to pass 2^8/2^9 and wrap); a `gray` stream evaluates scl::grayEncode/grayDecode/round trip at every width 1..16 (exhaustive to 12 bits, boundary + random above) against C15/Gray.lean. A further stream drives scl::strm::fifo (ready/valid, latency 0 = fall-through .. 4) with protocol-conforming sources. evaluations = clock-edge events replayed on model AND checked against the queue spec; "
             "non-trivial = accepted + yielded items + refused attempts at capacity / at none",
     "trusted_base": ["Lean 4.33 kernel", "axioms: propext, Classical.choice, Quot.sound only (audited per theorem)",
                      "statements in Properties/C15.lean and the trace-level definitions accepted/yielded/fill/queue/lastAf/lastAe (C15/Spec.lean)",
                      "harness/c15.cpp + Driver/C15.lean line protocol; agreement model/implementation established on the generated cases only",
-                     "gatery ReferenceSimulator as the semantics of the generated circuit (no metastability; gray encode/decode not modelled separately)"],
+                     "gatery ReferenceSimulator as the semantics of the generated circuit (no metastability); gray encode/decode modelled in C15/Gray.lean, proved to be inverse at every width and tied to scl/cdc.cpp by the gray stream"],
     "level_text": "Lean model of the circuit built by scl::Fifo::generate/generatePush/generatePop/generateCdc (pointers with wrap bit, registered full/empty/almostFull/almostEmpty, "
                   "memory + registered read, latency-1 register chains resp. in-stage + synchroniser registers). Proved for all depths 2^k, all latencies, all payload types and all schedules "
                   "(single clock; dual clock with arbitrary interleaving of the clock edges; and any adversarial stale-observation sequence): occupancy bounds, refinement to a List queue, "
